@@ -145,6 +145,11 @@ def op_strategies(nparts, ngroups, profile):
         'downseq': st.tuples(idx, idx, st.sampled_from([-5, -1, 1, 5, 100]))
         .map(lambda t: ['macro', [['down', t[0]], ['cycle'],
                                   ['adv_ret', t[1], t[2]], ['cycle']]]),
+        # macro: a server is frozen with instances marked, and un-frozen
+        # again before any cycle ran
+        'freezeflip': st.tuples(idx, st.lists(idx, min_size=1, max_size=2))
+        .map(lambda t: ['macro', [['freeze', t[0], t[1]],
+                                  ['unfreeze', t[0]]]]),
     }
     if not ngroups:
         ops.pop('idg')
@@ -164,7 +169,8 @@ def flatten(ops):
 
 DEFAULT_WEIGHTS = {
     'app': 10, 'clone': 2, 'rm': 2, 'prio': 1, 'move': 1, 'srv': 1, 'rmsrv': 1,
-    'readd': 1, 'down': 2, 'up': 2, 'downseq': 0, 'freeze': 1, 'unfreeze': 1, 'bl': 1,
+    'readd': 1, 'down': 2, 'up': 2, 'downseq': 0, 'freezeflip': 0,
+    'freeze': 1, 'unfreeze': 1, 'bl': 1,
     'renew': 1, 'idg': 1, 'rmidg': 1, 'strat': 1, 'adv': 2, 'adv_ret': 1,
     'tick': 1, 'cycle': 8,
 }
@@ -331,6 +337,12 @@ def e2_op_strategies(nparts, ngroups, profile):
         'downseq': st.tuples(idx, idx, st.sampled_from([-5, -1, 1, 5, 100]))
         .map(lambda t: ['macro', [['down', t[0]], ['cycle'],
                                   ['adv_ret', t[1], t[2]], ['cycle']]]),
+        'downrestart': st.tuples(idx, idx, st.sampled_from([1, 5, 100]))
+        .map(lambda t: ['macro', [['down', t[0]], ['cycle'], ['restart'],
+                                  ['adv_ret', t[1], t[2]], ['cycle']]]),
+        'freezeflip': st.tuples(idx, st.lists(idx, min_size=1, max_size=2))
+        .map(lambda t: ['macro', [['state', t[0], 'frozen', t[1]],
+                                  ['state', t[0], 'up', []]]]),
     }
     if not ngroups:
         ops.pop('idg')
@@ -342,7 +354,8 @@ def e2_op_strategies(nparts, ngroups, profile):
 
 E2_WEIGHTS = {
     'app': 10, 'rm': 2, 'rmlast': 1, 'finish': 1, 'prio': 1, 'srv': 1, 'rmsrv': 1,
-    'down': 2, 'up': 2, 'downseq': 0, 'reboot': 1, 'resize': 1, 'repart': 1, 'reparent': 1,
+    'down': 2, 'up': 2, 'downseq': 0, 'downrestart': 0, 'freezeflip': 0,
+    'reboot': 1, 'resize': 1, 'repart': 1, 'reparent': 1,
     'state': 1, 'allocs': 1, 'idg': 1, 'rmidg': 1, 'bl': 1, 'blackout': 1,
     'cellev': 1, 'running': 1, 'adv': 2, 'adv_ret': 1, 'tickreboots': 1,
     'checkreboot': 1, 'integrity': 1, 'enq': 1, 'proc': 1, 'ev': 3,
